@@ -1,8 +1,26 @@
-import FeatherModel.Model.Enigma
+import FeatherModel.Lemmas.EnigmaPlacement
+import FeatherModel.Lemmas.EnigmaPerm
 
 /-!
 # C12 — Enigma files and directories round-trip the mappings they can express
-Property theorems only. Model: `FeatherModel/Model/Enigma.lean`.
+Property theorems only. Model: `FeatherModel/Model/Enigma.lean` (`writeAll`, `files`, `readInto`, `readFiles`,
+`dirRoundTrip`, the decidable domain `writableB`). Helper lemmas: `FeatherModel/Lemmas/Enigma*.lean`.
+
+The domain `writableB m` ("Enigma-expressible"): consistent keys (the invariants of every `Mappings` built through quill's
+API), names that are single tokens (no `White_Space`, `#`, unmatched surrogate) and valid for their `duke` name type,
+the target name of a class that is written below a present parent is `parent's target (or source) name $ simple name`,
+no target name that looks like a modifier (`ACC:…`), parameters with a target and without a source name, javadocs in
+which space and LF are the only Java whitespace, distinct file names of the classes that get a file. Orphan inner
+classes (outer class absent), classes without target name, parameter comments, comments with blank lines, leading spaces
+and `#`, packages of any depth are all inside the domain. Everything else is shown to be a real loss by a `…_witness`.
+
+Equalities. The reader returns the classes in the order in which their `CLASS` loops end: file after file (stream:
+file-name order; directory: sorted walk order), inside a file children before the class that contains them
+(`postOf`). So the round trip is stated (a) exactly, with that order (`read_write_all`, `read_write_dir`), (b) as a
+permutation of the canonical form (`read_back_perm`, `read_back_dir_perm`), and (c) as content equality `ContentEq`
+(same classes under the same source keys, same names, javadocs, fields, methods, parameters; `<init>` target names
+count as absent) in `read_write_all_content`, `read_write_dir_content`. Member order inside a class *is* determined: it
+is the writer's sort order (`canonClass`).
 -/
 
 namespace Thm.C12
@@ -15,6 +33,305 @@ def roundTrip (m : Mappings) : Option Mappings :=
 def mk (cs : AList JStr Class) : Mappings := { ns := [jstr "official", jstr "named"], doc := none, classes := cs }
 def cls (k : String) (d : Option String) : JStr × Class :=
   (jstr k, { names := [some (jstr k), d.map jstr], doc := none, fields := [], methods := [] })
+
+/-! ## Content equality -/
+
+/-- constructors are treated as unnamed: a target name `<init>` counts as absent -/
+def unnameInit : Names → Names
+  | [n, some d] => if d = kwINIT then [n, none] else [n, some d]
+  | ns => ns
+
+def optRel {α : Type} (R : α → α → Prop) : Option α → Option α → Prop
+  | none, none => True
+  | some a, some b => R a b
+  | _, _ => False
+
+/-- same method entry: descriptor, javadoc, names (up to `<init>`), the same parameters under the same indices -/
+def MethodEq (a b : Method) : Prop :=
+  a.desc = b.desc ∧ a.doc = b.doc ∧ unnameInit a.names = unnameInit b.names ∧
+    ∀ i, AList.lookup i a.params = AList.lookup i b.params
+
+/-- same class entry: names, javadoc, the same fields and methods under the same `(name, descriptor)` keys -/
+def ClassEq (a b : Class) : Prop :=
+  a.names = b.names ∧ a.doc = b.doc ∧ (∀ k, AList.lookup k a.fields = AList.lookup k b.fields) ∧
+    ∀ k, optRel MethodEq (AList.lookup k a.methods) (AList.lookup k b.methods)
+
+/-- same namespaces and the same classes under the same source keys -/
+def ContentEq (r m : Mappings) : Prop :=
+  r.ns = m.ns ∧ ∀ k, optRel ClassEq (AList.lookup k r.classes) (AList.lookup k m.classes)
+
+theorem unnameInit_idem : ∀ ns : Names, unnameInit (unnameInit ns) = unnameInit ns
+  | [] => rfl
+  | [_] => rfl
+  | [_, none] => rfl
+  | [n, some d] => by
+    by_cases h : d = kwINIT
+    · simp [unnameInit, h]
+    · simp [unnameInit, h]
+  | _ :: none :: _ :: _ => rfl
+  | _ :: some _ :: _ :: _ => rfl
+
+theorem canonMethod_names (m : Method) : (canonMethod m).names = unnameInit m.names := rfl
+
+theorem lookup_map_snd {K V W : Type} [BEq K] (f : V → W) (k : K) : ∀ l : AList K V,
+    AList.lookup k (l.map fun e => (e.1, f e.2)) = (AList.lookup k l).map f
+  | [] => rfl
+  | (k', v) :: rest => by
+    simp only [List.map_cons, AList.lookup]
+    split
+    · rfl
+    · exact lookup_map_snd f k rest
+
+/-- the canonical form of a method has the same content -/
+theorem canonMethod_content (m : Method) (hnd : (m.params.map Prod.fst).Nodup) : MethodEq (canonMethod m) m := by
+  refine ⟨rfl, rfl, ?_, ?_⟩
+  · rw [canonMethod_names, unnameInit_idem]
+  · intro i
+    have hp : (canonMethod m).params = isort paramLe m.params := rfl
+    rw [hp]
+    exact lookup_perm (((isort_perm paramLe m.params).map Prod.fst).nodup_iff.mpr hnd) (isort_perm paramLe m.params) i
+
+/-- the canonical form of a class has the same content -/
+theorem canonClass_content (c : Class) (hf : (c.fields.map Prod.fst).Nodup) (hm : (c.methods.map Prod.fst).Nodup)
+    (hp : ∀ e ∈ c.methods, (e.2.params.map Prod.fst).Nodup) : ClassEq (canonClass c) c := by
+  refine ⟨rfl, rfl, ?_, ?_⟩
+  · intro k
+    exact lookup_perm (((isort_perm fieldLe c.fields).map Prod.fst).nodup_iff.mpr hf) (isort_perm fieldLe c.fields) k
+  · intro k
+    have e1 : (canonClass c).methods = (isort methodLe c.methods).map fun e => (e.1, canonMethod e.2) := rfl
+    rw [e1, lookup_map_snd,
+      lookup_perm (((isort_perm methodLe c.methods).map Prod.fst).nodup_iff.mpr hm) (isort_perm methodLe c.methods) k]
+    cases hl : AList.lookup k c.methods with
+    | none => exact True.intro
+    | some x => exact canonMethod_content x (hp (k, x) (mem_of_lookup hl))
+
+/-- a permutation of the canonical classes has the content of the classes -/
+theorem contentEq_of_perm {m : Mappings} (h : writableB m = true) {r : Mappings} (hns : r.ns = m.ns)
+    (hp : r.classes.Perm (canonClasses m.classes)) : ContentEq r m := by
+  obtain ⟨hok, hnd, _⟩ := writableB_spec h
+  refine ⟨hns, fun k => ?_⟩
+  rw [lookup_of_perm_canon hnd hp k]
+  cases hl : AList.lookup k m.classes with
+  | none => exact True.intro
+  | some c =>
+    obtain ⟨_, _, _, _, _, _, _, hfn, hms, hmn⟩ := classOk_spec (hok (k, c) (mem_of_lookup hl))
+    exact canonClass_content c hfn hmn (fun e he => (methodOk_spec (hms e he)).choose_spec.2.2.2.2.2.2.2.2)
+
+/-! ## The layers of the round trip -/
+
+/-- line layer: `BufRead::lines` undoes `writeln!` for lines without LF inside and CR at the end -/
+theorem lines_roundtrip (lines : List Text) (h : ∀ l ∈ lines, LF ∉ l ∧ l.getLast? ≠ some CR) :
+    splitLines (render lines) [] = lines := splitLines_render lines h
+
+/-- tokeniser layer: a keyword line (`CLASS`, `FIELD`, `METHOD`, `ARG`) made of tokens that contain no `White_Space` and
+no `#` is cut into exactly these tokens, the indentation is the number of tabs -/
+theorem tokenise_keyword_line (n : Nat) (kw : JStr) (toks : List JStr)
+    (hkw : kw ∈ [kwCLASS, kwFIELD, kwMETHOD, kwARG]) (ht : ∀ t ∈ toks, tokOk t = true) :
+    lexLine (tabs n ++ joinSp (kw :: toks)) = some { idents := n, first := kw, fields := toks } := by
+  have hT : ∀ t ∈ toks, Tok t := fun t h => tokOk_tok (ht t h)
+  rw [joinSp_eq]
+  simp only [List.mem_cons, List.not_mem_nil, or_false] at hkw
+  rcases hkw with rfl | rfl | rfl | rfl
+  · exact (lexLine_tokens n _ toks tok_CLASS (notComment_CLASS _) hT).2
+  · exact (lexLine_tokens n _ toks tok_FIELD (notComment_FIELD _) hT).2
+  · exact (lexLine_tokens n _ toks tok_METHOD (notComment_METHOD _) hT).2
+  · exact (lexLine_tokens n _ toks tok_ARG (notComment_ARG _) hT).2
+
+/-- comment layer: the `COMMENT` lines written for a javadoc (any text in which space and LF are the only Java
+whitespace: blank lines, leading and repeated spaces, `#` included) are put together to the same javadoc -/
+theorem comment_roundtrip (n : Nat) (d : Option JStr) (h : docOk d = true) :
+    ((commentLines n d).filterMap lexLine).foldl insertComment none = d := by
+  rw [(commentLines_lex n d h).2, foldl_commentEL n d h]
+
+/-- class-tree layer (induction on the nesting): reading the text of the tree of `key` below the open classes `st`
+adds exactly the classes of the tree, children first, with their full names rebuilt from the enclosing `CLASS` lines -/
+theorem class_tree_roundtrip (classes : AList JStr Class) (hok : ∀ e ∈ classes, classOk classes e = true)
+    (hnd : (classes.map Prod.fst).Nodup) (fuel : Nat) : TreeRun classes fuel := treeRun classes hok hnd fuel
+
+/-- the fuel of `treeLines` (longest key + 1) is never used up on the domain … -/
+theorem treeLines_fuel (m : Mappings) (h : writableB m = true) (e : JStr × Class) (he : e ∈ m.classes) (d : Nat) :
+    (treeLines m.classes (treeFuel m.classes) e.1 e.2 d).isSome = true := by
+  obtain ⟨hok, _, _⟩ := writableB_spec h
+  obtain ⟨ls, hl, _⟩ := tree_lex m.classes hok (treeFuel m.classes) e.1 e.2 d he (by simp [treeFuel]; omega)
+  rw [hl]; rfl
+
+/-- … and more fuel never changes a result (for every mapping set) -/
+theorem treeLines_fuel_mono (classes : AList JStr Class) (fuel : Nat) (key : JStr) (c : Class) (d : Nat) (ls : List Text)
+    (h : treeLines classes fuel key c d = some ls) : treeLines classes (fuel + 1) key c d = some ls :=
+  treeLines_mono classes fuel key c d ls h
+
+/-! ## Round trip: single stream -/
+
+/-- **`read_into(write_all(M))`, exactly**: on the Enigma-expressible domain writing succeeds and reading the text into
+fresh mappings with the same namespaces succeeds with the canonical classes in the order `postOf` -/
+theorem read_write_all (m : Mappings) (h : writableB m = true) :
+    ∃ t, writeAll m = some t ∧
+      readInto t (emptyLike m) = some { emptyLike m with classes := postOf m (fileEntries m) } := by
+  obtain ⟨t, hw, hr⟩ := readClasses_writeAll h
+  refine ⟨t, hw, ?_⟩
+  simp only [readInto, emptyLike, hr]
+
+/-- the classes read back are a permutation of the canonical forms of the classes written (every class exactly once) -/
+theorem read_back_perm (m : Mappings) (h : writableB m = true) :
+    (postOf m (fileEntries m)).Perm (canonClasses m.classes) :=
+  postOf_perm (writableB_spec h).2.1 _ (fileEntries_snd_perm m)
+
+/-- **`read_into(write_all(M)) ≈ M`**: same classes under the same source keys with the same target names, javadocs,
+fields, methods and parameters -/
+theorem read_write_all_content (m : Mappings) (h : writableB m = true) :
+    ∃ r, roundTrip m = some r ∧ r.doc = none ∧ ContentEq r m := by
+  obtain ⟨t, hw, hr⟩ := read_write_all m h
+  refine ⟨{ emptyLike m with classes := postOf m (fileEntries m) }, ?_, rfl, ?_⟩
+  · simp only [roundTrip, hw, Option.bind_some, hr]
+  · exact contentEq_of_perm h rfl (read_back_perm m h)
+
+/-! ## Round trip: directory -/
+
+/-- `enigma_dir::write` succeeds on the whole domain: one file per class without present parent, at the path
+`<target name, or source name> + ".mapping"`, holding the tree of that class -/
+theorem dir_paths (m : Mappings) (h : writableB m = true) :
+    files m = some ((fileEntries m).map fun x => (fileNameOf x.2.1 x.2.2 ++ extMAPPING, treeText m x.2)) := by
+  rw [files_spec h]
+  congr 1
+  apply List.map_congr_left
+  intro x hx
+  simp only [fileOf, (mem_fileEntries hx).2.2]
+
+/-- **`enigma_dir::read(enigma_dir::write(M))`, exactly**: the files are read in sorted walk order (`dirEntries`) -/
+theorem read_write_dir (m : Mappings) (h : writableB m = true) :
+    dirRoundTrip m = some { emptyLike m with classes := postOf m (dirEntries m) } := dirRoundTrip_spec h
+
+theorem read_back_dir_perm (m : Mappings) (h : writableB m = true) :
+    (postOf m (dirEntries m)).Perm (canonClasses m.classes) :=
+  postOf_perm (writableB_spec h).2.1 _ (((dirEntries_perm m).map Prod.snd).trans (fileEntries_snd_perm m))
+
+/-- **the directory round trip gives back the content** -/
+theorem read_write_dir_content (m : Mappings) (h : writableB m = true) :
+    ∃ r, dirRoundTrip m = some r ∧ r.doc = none ∧ ContentEq r m :=
+  ⟨_, read_write_dir m h, rfl, contentEq_of_perm h rfl (read_back_dir_perm m h)⟩
+
+/-- the two forms agree up to the order of the classes -/
+theorem dir_stream_same_classes (m : Mappings) (h : writableB m = true) :
+    (postOf m (dirEntries m)).Perm (postOf m (fileEntries m)) :=
+  (read_back_dir_perm m h).trans (read_back_perm m h).symm
+
+/-! ## Placement -/
+
+/-- **every class lands in exactly one file, exactly once**: the classes of the trees of all files together are a
+permutation of the classes of the set (needs only unique keys) -/
+theorem placement_partition (m : Mappings) (hnd : (m.classes.map Prod.fst).Nodup) :
+    ((fileEntries m).flatMap fun x => postRaw m.classes (treeFuel m.classes) x.2.1 x.2.2).Perm m.classes := by
+  have := forest_perm hnd _ (fileEntries_snd_perm m)
+  rwa [List.flatMap_map] at this
+
+/-- a file is made for exactly the classes without a present parent -/
+theorem placement_roots (m : Mappings) : ((fileEntries m).map Prod.snd).Perm (m.classes.filter fun e => (parentInSet m.classes e.1).isNone) :=
+  fileEntries_snd_perm m
+
+/-- **the file of a class is the file of its outermost present ancestor**: `e` is in the tree of the file entry `x`
+iff the root of `x` is reached from `e` along parents that are present in the set -/
+theorem placement_file_of_class (m : Mappings) (hnd : (m.classes.map Prod.fst).Nodup) (x : JStr × (JStr × Class))
+    (hx : x ∈ fileEntries m) (e : JStr × Class) (he : e ∈ m.classes) :
+    e ∈ postRaw m.classes (treeFuel m.classes) x.2.1 x.2.2 ↔ Anc m.classes e.1 x.2.1 :=
+  mem_tree_iff hnd ((fileEntries_snd_perm m).subset (List.mem_map.mpr ⟨x, hx, rfl⟩)) he
+
+/-- no class is in the trees of two files -/
+theorem placement_unique (m : Mappings) (hnd : (m.classes.map Prod.fst).Nodup) (x y : JStr × (JStr × Class))
+    (hx : x ∈ fileEntries m) (hy : y ∈ fileEntries m) (e : JStr × Class)
+    (h1 : e ∈ postRaw m.classes (treeFuel m.classes) x.2.1 x.2.2)
+    (h2 : e ∈ postRaw m.classes (treeFuel m.classes) y.2.1 y.2.2) : x.2 = y.2 :=
+  tree_unique hnd ((fileEntries_snd_perm m).subset (List.mem_map.mpr ⟨x, hx, rfl⟩))
+    ((fileEntries_snd_perm m).subset (List.mem_map.mpr ⟨y, hy, rfl⟩)) h1 h2
+
+/-- **nesting in the text mirrors source-name nesting**: the written stream is tokenised (by the reader's tokeniser)
+into lines whose `CLASS` lines are, file after file, the pre-order walk of the tree along present parents; the line of a
+class is indented one level deeper than the line of its present parent (`preDepth_spec`) and shows the simple names
+below a parent, the full names at the top of a file (`headerEL`) -/
+theorem nesting_mirror (m : Mappings) (h : writableB m = true) :
+    ∃ t, writeAll m = some t ∧
+      (lexText t).filter isClassLine =
+        ((fileEntries m).flatMap fun x => preDepth m.classes (treeFuel m.classes) x.2.1 x.2.2 0).map headerEL := by
+  obtain ⟨ls, hw, lx⟩ := writeAll_lex h
+  refine ⟨_, hw, ?_⟩
+  rw [lx.text, allEL, List.map_flatMap]
+  generalize fileEntries m = fm
+  induction fm with
+  | nil => rfl
+  | cons x rest ih =>
+    simp only [List.flatMap_cons, List.filter_append, ih, treeEL_classLines]
+
+/-- depth 0 exactly for the class at the top of the file; every other class one deeper than its present parent, which
+is in the same walk -/
+theorem nesting_depth (classes : AList JStr Class) (fuel : Nat) (key : JStr) (c : Class) (x : Nat × (JStr × Class))
+    (hx : x ∈ preDepth classes fuel key c 0) :
+    x = (0, (key, c)) ∨ (0 < x.1 ∧ ∃ p ∈ preDepth classes fuel key c 0,
+      parentInSet classes x.2.1 = some p.2.1 ∧ x.1 = p.1 + 1) :=
+  preDepth_spec classes fuel key c 0 x hx
+
+/-! ## Determinism and sortedness -/
+
+/-- **the output does not depend on the insertion order**: two Enigma-expressible sets with the same entries under
+the same keys at every level, inserted in any order at every level (`Shuffled`), give the same stream and the same
+files -/
+theorem write_order_independent (m m' : Mappings) (hw : writableB m = true) (hw' : writableB m' = true)
+    (h : Shuffled m m') : writeAll m = writeAll m' ∧ files m = files m' := write_shuffled hw hw' h
+
+/-- **the output is sorted**: files by file name, nested classes by source name, fields and methods by
+`(names, descriptor)`, parameters by `(index, names)` -/
+theorem output_sorted (m : Mappings) :
+    (fileEntries m).Pairwise (fun a b => keyLe a b = true) ∧
+    (∀ key, (childrenOf m.classes key).Pairwise (fun a b => keyLe a b = true)) ∧
+    ∀ c : Class, (isort fieldLe c.fields).Pairwise (fun a b => fieldLe a b = true) ∧
+      (isort methodLe c.methods).Pairwise (fun a b => methodLe a b = true) ∧
+      ∀ e ∈ c.methods, (isort paramLe e.2.params).Pairwise (fun a b => paramLe a b = true) :=
+  ⟨fileEntries_sorted m, childrenOf_sorted m.classes, fun _ =>
+    ⟨isort_pairwise fieldLe_ord.total fieldLe_ord.trans _, isort_pairwise methodLe_ord.total methodLe_ord.trans _,
+      fun _ _ => isort_pairwise paramLe_ord.total paramLe_ord.trans _⟩⟩
+
+/-- the sort keys are total orders: equal keys only for equal `(names, descriptor)` resp. file names -/
+theorem sort_keys_total :
+    (∀ a b : MemberKey × Field, fieldLe a b = true → fieldLe b a = true → (a.2.names, a.2.desc) = (b.2.names, b.2.desc)) ∧
+    (∀ a b : MemberKey × Method, methodLe a b = true → methodLe b a = true → (a.2.names, a.2.desc) = (b.2.names, b.2.desc)) ∧
+    (∀ a b : Nat × Param, paramLe a b = true → paramLe b a = true → (a.2.index, a.2.names) = (b.2.index, b.2.names)) ∧
+    (∀ a b : JStr × (JStr × Class), keyLe a b = true → keyLe b a = true → a.1 = b.1) :=
+  ⟨fieldLe_ord.antisymm, methodLe_ord.antisymm, paramLe_ord.antisymm, keyLe_ord.antisymm⟩
+
+/-! ## Non-vacuity -/
+
+def fld (n d : String) (dst : Option String) (doc : Option String) : MemberKey × Field :=
+  ((jstr n, jstr d), { desc := jstr d, names := [some (jstr n), dst.map jstr], doc := doc.map jstr })
+def prm (i : Nat) (n : String) (doc : Option String) : Nat × Param :=
+  (i, { index := i, names := [none, some (jstr n)], doc := doc.map jstr })
+def mth' (n d : String) (dst : Option String) (doc : Option String) (ps : AList Nat Param) : MemberKey × Method :=
+  ((jstr n, jstr d), { desc := jstr d, names := [some (jstr n), dst.map jstr], doc := doc.map jstr, params := ps })
+def clsF (k : String) (d : Option String) (doc : Option String) (fs : AList MemberKey Field) (ms : AList MemberKey Method) :
+    JStr × Class :=
+  (jstr k, { names := [some (jstr k), d.map jstr], doc := doc.map jstr, fields := fs, methods := ms })
+
+/-- nested class below its parent, orphan inner class, class without target name, package, members out of order,
+constructor, parameters with comments; comments with a blank line, leading spaces and `#`, an empty comment, comments
+whose last line is blank (at class, field, method and parameter level) -/
+def sample : Mappings := mk [
+  clsF "p/A$B" (some "q/X$Y") (some "") [] [],
+  clsF "p/A" (some "q/X") (some "first line\n\n  indented # not a comment\n") [fld "b" "I" (some "y") (some "f\n"), fld "a" "I" none (some "")]
+    [mth' "m" "(I)V" (some "n") (some "m\n\n") [prm 1 "q" (some ""), prm 0 "p" (some "par\n doc\n")], mth' "<init>" "()V" (some "<init>") none []],
+  clsF "O$I" none none [] [],
+  clsF "O$I$J" (some "O$I$K") none [] []]
+
+example : writableB sample = true := by decide
+
+def sampleShuffled : Mappings := mk [
+  clsF "O$I$J" (some "O$I$K") none [] [],
+  clsF "p/A$B" (some "q/X$Y") (some "") [] [],
+  clsF "O$I" none none [] [],
+  clsF "p/A" (some "q/X") (some "first line\n\n  indented # not a comment\n") [fld "a" "I" none (some ""), fld "b" "I" (some "y") (some "f\n")]
+    [mth' "<init>" "()V" (some "<init>") none [], mth' "m" "(I)V" (some "n") (some "m\n\n") [prm 0 "p" (some "par\n doc\n"), prm 1 "q" (some "")]]]
+
+example : writableB sampleShuffled = true := by decide
+
+-- the hypotheses of `write_order_independent` are satisfiable by two different insertion orders
+set_option maxRecDepth 100000 in
+example : writeAll sample = writeAll sampleShuffled ∧ sample ≠ sampleShuffled := by decide
 
 /-! ## Witnesses: what the format cannot express (each restriction of `writableB` that is a real loss) -/
 
@@ -42,6 +359,28 @@ theorem comment_tab_witness :
     roundTrip (mk [(jstr "A", { names := [some (jstr "A"), none], doc := some (jstr "a\tb"), fields := [], methods := [] })]) =
       some (mk [(jstr "A", { names := [some (jstr "A"), none], doc := some (jstr "a b"), fields := [], methods := [] })]) := by
   decide
+
+/-- a CR at the end of a comment line is eaten by `BufRead::lines`, a CR inside a line comes back as a space -/
+theorem comment_cr_witness :
+    roundTrip (mk [(jstr "A", { names := [some (jstr "A"), none], doc := some (jstr "a\r\nb\rc"), fields := [], methods := [] })]) =
+      some (mk [(jstr "A", { names := [some (jstr "A"), none], doc := some (jstr "a\nb c"), fields := [], methods := [] })]) := by
+  decide
+
+/-- inside the domain: an empty comment and a comment whose last line is blank come back unchanged -/
+theorem comment_blank_roundtrip :
+    roundTrip (mk [(jstr "A", { names := [some (jstr "A"), none], doc := some (jstr "x\n"), fields := [], methods := [] }),
+                   (jstr "B", { names := [some (jstr "B"), none], doc := some (jstr ""), fields := [], methods := [] })]) =
+      some (mk [(jstr "A", { names := [some (jstr "A"), none], doc := some (jstr "x\n"), fields := [], methods := [] }),
+                (jstr "B", { names := [some (jstr "B"), none], doc := some (jstr ""), fields := [], methods := [] })]) := by
+  decide
+
+/-- a `#` in a name cuts the line: the target name `X#Y` comes back as `X` -/
+theorem hash_in_name_witness :
+    roundTrip (mk [cls "A" (some "X#Y")]) = some (mk [cls "A" (some "X")]) := by decide
+
+/-- a space in a name makes two tokens: the target name `X Y` comes back as `X` (`Y` is taken for a modifier) -/
+theorem space_in_name_witness :
+    roundTrip (mk [cls "A" (some "X Y")]) = some (mk [cls "A" (some "X")]) := by decide
 
 def clsM (k : String) (ms : AList MemberKey Method) : JStr × Class :=
   (jstr k, { names := [some (jstr k), none], doc := none, fields := [], methods := ms })
